@@ -11,6 +11,7 @@ CONSTANTS
   MaxReRel = 2
   Slacks = {1, 2, 3}
   Listers = 1
+  Retries = 1
   FixedKinds = {"conncap", "maplimit", "maplive", "codequota", "mapquota"}
   WithRelease = TRUE
   Emit = FALSE
@@ -19,5 +20,5 @@ CONSTANTS
 INIT Init
 NEXT Next
 VIEW view
-INVARIANTS TypeOK NoOvershoot NoDeviation RefusedNoEffect CounterExact
+INVARIANTS TypeOK NoOvershoot NoDeviation RefusedNoEffect RefusedClean RetryClean RetryAdmitted CounterExact
 CHECK_DEADLOCK FALSE
